@@ -68,14 +68,16 @@ def Table.runsFrom {ε} (t : Table ε) (ph pa : String) : List (LRun ε) :=
 def Table.runAt {ε} (t : Table ε) (ph pa id : String) : Option (LRun ε) :=
   (t.runsFrom ph pa).find? (fun r => r.run.id == id)
 
+/-- modify the value under key `k` of an insertion-ordered dict; when the key is absent and
+`create`, the key is added at the end with `f dflt`. -/
+def amod {α} (k : String) (create : Bool) (f : α → α) (dflt : α) (l : List (String × α)) : List (String × α) :=
+  if l.any (·.1 == k) then l.map (fun kv => if kv.1 == k then (kv.1, f kv.2) else kv)
+  else if create then l ++ [(k, f dflt)] else l
+
 /-- modify the run list stored under (ph, pa); creates the keys (at the end) when `create`. -/
 def Table.modify {ε} (t : Table ε) (ph pa : String) (create : Bool)
     (f : List (LRun ε) → List (LRun ε)) : Table ε :=
-  let modPats (pats : List (String × List (LRun ε))) : List (String × List (LRun ε)) :=
-    if pats.any (·.1 == pa) then pats.map (fun kv => if kv.1 == pa then (kv.1, f kv.2) else kv)
-    else if create then pats ++ [(pa, f [])] else pats
-  if t.any (·.1 == ph) then t.map (fun kv => if kv.1 == ph then (kv.1, modPats kv.2) else kv)
-  else if create then t ++ [(ph, modPats [])] else t
+  amod ph create (amod pa create f []) [] t
 
 /-- `_remove_run(..., quiet=True)` -/
 def Table.remove {ε} (t : Table ε) (ph pa id : String) : Table ε :=
@@ -143,21 +145,22 @@ def checkRun {ε} (e : ε) (ph : String) (acc : RunsAcc ε) (r : LRun ε) : Runs
     else { acc with keep := acc.keep ++ [r'], upd := acc.upd ++ [r'.ser ph] }
   | _ => { acc with keep := acc.keep ++ [r'] }
 
+/-- the loop of `_check_against_runs` over one (phenomenon, pattern) bucket. -/
+def procBucket {ε} (e : ε) (ph : String) (rs : List (LRun ε)) : RunsAcc ε :=
+  rs.foldl (checkRun e ph) {}
+
+/-- per-bucket results, in table order (phenomenon, then pattern). -/
+def bucketAccs {ε} (e : ε) (t : Table ε) : List (String × List (String × RunsAcc ε)) :=
+  t.map (fun phe => (phe.1, phe.2.map (fun pe => (pe.1, procBucket e phe.1 pe.2))))
+
 /-- `_check_against_runs`: every run present before the event is offered the event once,
-in table order; finished runs leave the table. -/
+in table order; finished runs leave the table (the keys stay).  The three result lists are
+filled in iteration order, i.e. they are the concatenation of the per-bucket lists. -/
 def checkAgainstRuns {ε} (e : ε) (t : Table ε) : Table ε × List (Rec ε) × List (Rec ε) × List (Rec ε) :=
-  let step (st : Table ε × List (Rec ε) × List (Rec ε) × List (Rec ε))
-      (phe : String × List (String × List (LRun ε))) :=
-    let (tab, hc, hi, upd) := st
-    let (ph, pats) := phe
-    let stepP (sp : List (String × List (LRun ε)) × List (Rec ε) × List (Rec ε) × List (Rec ε))
-        (pe : String × List (LRun ε)) :=
-      let (ps, hc, hi, upd) := sp
-      let acc := pe.2.foldl (checkRun e ph) {}
-      (ps ++ [(pe.1, acc.keep)], hc ++ acc.hc, hi ++ acc.hi, upd ++ acc.upd)
-    let (pats', hc', hi', upd') := pats.foldl stepP ([], hc, hi, upd)
-    (tab ++ [(ph, pats')], hc', hi', upd')
-  t.foldl step ([], [], [], [])
+  let accs := bucketAccs e t
+  let flat := accs.flatMap (fun phe => phe.2.map (·.2))
+  (accs.map (fun phe => (phe.1, phe.2.map (fun pe => (pe.1, pe.2.keep)))),
+   flat.flatMap (·.hc), flat.flatMap (·.hi), flat.flatMap (·.upd))
 
 /-- first-block test of `_check_against_patterns`: predicates see the empty history;
 a raising predicate counts as "no" and the next one is tried. -/
@@ -233,7 +236,12 @@ def ahead {ε} (rr : Rec ε) (loc : Run ε) : Bool :=
 /-- the pinned-tree comparison (F1): index only. -/
 def aheadOld {ε} (rr : Rec ε) (loc : Run ε) : Bool := decide (rr.idx > loc.idx)
 
-/-- state threaded through the completed/halted loops: the decider state and the
+/-- (The Python addresses the local run through the run object's own names
+`runlocal.phenomenon_name` / `runlocal.pattern.name`; a run is always stored under the name of
+the pattern it holds — `_add_run(phenomenon.name, pattern.name, run)` — so these equal the
+record's names `rr.phen` / `rr.pat` under which it was just looked up; the model uses the latter.)
+
+State threaded through the completed/halted loops: the decider state and the
 (possibly edited) list being walked, rebuilt in order; `none` entries = unknown pattern (dropped). -/
 def removeOne {ε} (c : Cfg ε) (isComp : Bool) (st : DState ε × List (Rec ε)) (rr : Rec ε) :
     DState ε × List (Rec ε) :=
@@ -241,10 +249,10 @@ def removeOne {ε} (c : Cfg ε) (isComp : Bool) (st : DState ε × List (Rec ε)
   match c.getPattern rr.phen rr.pat with
   | none => (s, out)                                  -- ignored, index removed from the list
   | some p =>
-    let runs := s.table.runsFrom rr.phen p.name
+    let runs := s.table.runsFrom rr.phen rr.pat
     match (if p.singleton then runs.head? else none) with
     | some rl =>
-      let s1 := { s with table := s.table.remove rr.phen rl.pat.name rl.run.id }
+      let s1 := { s with table := s.table.remove rr.phen rr.pat rl.run.id }
       if rr.id != rl.run.id then
         let ser := rl.ser rr.phen
         let s2 := maybeCache c s1 (if isComp then [ser] else []) (if isComp then [] else [ser])
@@ -261,11 +269,11 @@ def updateOne {ε} (c : Cfg ε) (aheadF : Rec ε → Run ε → Bool) (st : DSta
   | none => some (s, out)
   | some p =>
     let runlocal : Option (LRun ε) :=
-      if p.singleton then (s.table.runsFrom rr.phen p.name).head?
+      if p.singleton then (s.table.runsFrom rr.phen rr.pat).head?
       else s.table.runAt rr.phen rr.pat rr.id
     match runlocal with
     | some rl =>
-      let t' := if aheadF rr rl.run then s.table.setBlock rr.phen rl.pat.name rl.run.id rr.idx rr.hist
+      let t' := if aheadF rr rl.run then s.table.setBlock rr.phen rr.pat rl.run.id rr.idx rr.hist
                 else s.table
       let s' := { s with table := t' }
       if p.singleton && rr.id != rl.run.id then
